@@ -24,10 +24,10 @@ ERR_CODES = {0: 'UnitError:UnexpectedMathUnitsError', 1: 'UnitError:InputArgumen
 Q = lambda i, v, u=0: [2, i, F(v), u]   # noqa: E731
 # fixed witnesses, always run first (variable 3*u+j: unit index u; unit 2 = mV, 1 = volt, 0 = dimensionless, 5 = ms)
 CORPUS = [
-    {'name': 'F6 a**(_1 + _2)', 'tree': [6, [3, 6], [4, Q(1, 1), Q(2, 2)]]},
-    {'name': 'F6 a**(_2 - _1)', 'tree': [6, [3, 6], [4, Q(1, 2), [5, [0, 0, F(-1)], Q(2, 1)]]]},
-    {'name': 'F6 a**log(_100)', 'tree': [6, [3, 6], [7, 1, Q(1, 100)]]},
-    {'name': 'exp(a[mV]/b[volt])', 'tree': [7, 0, [5, [3, 6], [6, [3, 3], [0, 0, F(-1)]]]]},
+    {'name': 'F6 (repaired) a**(_1 + _2)', 'tree': [6, [3, 6], [4, Q(1, 1), Q(2, 2)]]},
+    {'name': 'F6 (repaired) a**(_2 - _1)', 'tree': [6, [3, 6], [4, Q(1, 2), [5, [0, 0, F(-1)], Q(2, 1)]]]},
+    {'name': 'F6 (repaired) a**log(_100)', 'tree': [6, [3, 6], [7, 1, Q(1, 100)]]},
+    {'name': '(repaired) exp(a[mV]/b[volt])', 'tree': [7, 0, [5, [3, 6], [6, [3, 3], [0, 0, F(-1)]]]]},
     {'name': 'piecewise condition a[mV] < t[ms]', 'tree': [13, [[3, 6], [9, 2, [3, 6], [3, 15]]], [[3, 6], [11]]]},
     {'name': 'exp(x) with initial value 1000', 'tree': [7, 0, [5, [0, 0, F(1000)], [3, 1]]]},
     {'name': '1/floor(_0.5)', 'tree': [6, [7, 3, Q(1, F(1, 2))], [0, 0, F(-1)]]},
@@ -100,16 +100,12 @@ def structure_findings(W, tree):
             if not all(_equiv(us[0], x) for x in us):
                 note(in_cond, 'piecewise', 'pieces in %s' % [x[:3] for x in us])
         elif k == 6:
-            if not uc.is_lit_product(s[2]):
-                causes.add('compound_exponent')
             if not _dimless(su(s[2])):
                 note(in_cond, 'exponent', 'exponent in %s' % (su(s[2])[:3],))
         elif k == 7 and s[1] not in (2, 3, 4):
             for a in s[2:]:
                 r = su(a)
                 if not _dimless(r):
-                    if r[0] == 'ok' and not r[2] and not in_cond:
-                        causes.add('scaled_dimless_arg')
                     note(in_cond, 'fn-arg', 'argument of function %d in %s' % (s[1], r[:3]))
         elif k == 7 and s[1] in (3, 4):
             r = su(s[2])
@@ -135,6 +131,7 @@ def rescale_findings(tree, scale, seed):
     tested = 0
     for _ in range(3):
         vals, dv = uc.valuation(rng)
+        vals = uc.pin_exponent_vars(tree, vals)
         if not uc.stable_point(tree, vals, dv):
             continue
         n = uc.try_eval(uc.eval_n, tree, vals, dv)
@@ -302,18 +299,6 @@ def _d(case):
     return case.get('detail', {})
 
 
-def compound_exponent(case):
-    """F6: the exponent of a power is not a literal (a sum, a function ...): traverse reads the exponent from
-    the magnitude of the FIRST operand of a sum / 1 for log and trig"""
-    return _d(case).get('kind') in ('rescale',) and uc.has_compound_exponent(uc.tree_unjson(case['tree']))
-
-
-def scaled_dimensionless_argument(case):
-    """exp/log/trig/... of an argument whose unit is dimensionless in dimension but has a scale (mV/volt, percent):
-    traverse only tests the dimensionality"""
-    return _d(case).get('kind') in ('fn-arg', 'rescale') and 'scaled_dimless_arg' in _d(case).get('causes', [])
-
-
 def unchecked_condition(case):
     """the conditions of a Piecewise are never traversed"""
     return _d(case).get('kind') in ('condition', 'rescale') and 'unchecked_condition' in _d(case).get('causes', [])
@@ -326,9 +311,8 @@ def magnitude_exception(case):
                                                                            'TypeError')
 
 
-KNOWN_PREDICATES = {'compound_exponent': compound_exponent,
-                    'scaled_dimensionless_argument': scaled_dimensionless_argument,
-                    'unchecked_condition': unchecked_condition,
+# repaired in /repo (fix: commits, see build/fixes): F6 compound exponents, scaled dimensionless arguments
+KNOWN_PREDICATES = {'unchecked_condition': unchecked_condition,
                     'magnitude_exception': magnitude_exception}
 
 
